@@ -101,6 +101,11 @@ class Check:
             if f["status"] != "open":
                 continue
             fn = getattr(taints, f["taint"], None)
+            table = getattr(taints, "_MEM_TABLE", {})
+            if f["taint"] == "MemUnderProjection" and f["id"] in table:
+                prog, func, comp, data, opt = table[f["id"]]
+                if not (facts.get("program") == prog and facts.get("func") == func):
+                    continue
             if fn is not None and fn(**facts):
                 return f["id"]
         return None
